@@ -227,6 +227,17 @@ class PairRule(sym.Rule):
                 return True           # k * capacity, k >= 2, capacity >= N > 0
             if len(t[2]) == 1 and t[1] > 0 and t[2][0][1] == 1 and is_cap0(sym.atom(t[2][0][0])):
                 return True           # capacity + positive constant
+
+            def nonneg(x):
+                # sizes, capacities and exact range lengths are not negative
+                return x[1] >= 0 and all(co > 0 and ((at[0] == 'init' and eng.field_tag.get(at[1]) in (1, 2)) or at[0] == 'divx')
+                                         for at, co in x[2])
+            if n == 0 and t[1] > 0 and nonneg(('L', 0, t[2])):
+                return True           # N == 0: (non-negative quantity) + positive constant >= 1
+            if n == 0:
+                for (k, x, y) in fs:
+                    if k == 'lt' and y == t and nonneg(x):
+                        return True   # N == 0: 0 <= x < t
             for (k, x, y) in fs:
                 if y != t or x == t:
                     continue
